@@ -18,7 +18,7 @@ def gen_tree(rng, pids, depth, late_p):
     def node(d, may_be_late):
         p = pids.pop()
         late = may_be_late and rng.random() < late_p
-        n = 0 if d >= depth else rng.choice([0, 0, 1, 1, 2, 3])
+        n = 0 if d >= depth or len(pids) < 12 else rng.choice([0, 0, 1, 1, 2, 3])     # never more nodes than pids drawn
         return (p, late, [node(d + 1, True) for _ in range(n)])
     return node(0, False)
 
@@ -214,7 +214,7 @@ def differential(ctx, n_cases):
     cases, bad = [], []
     shape = {"nodes": 0, "max_depth": 0, "with_late": 0}
     for i in range(n_cases):
-        pids = rng.sample(range(2, 2900), 60)
+        pids = rng.sample(range(2, 2900), 120)
         depth = rng.choice([0, 1, 2, 3, 4, 5])
         t = gen_tree(rng, pids, depth, rng.choice([0.0, 0.0, 0.15, 0.4]))
         vis = prune(t)
@@ -287,12 +287,13 @@ def dynamic_differential(ctx, n_cases):
     cases, bad = [], []
     stats = {"forks": 0, "late": 0, "visible": 0}
     for i in range(n_cases):
-        pids = rng.sample(range(2, 2900), 80)
+        pool = rng.sample(range(2, 2900), 140)
+        fresh_pool, pids = pool[:20], pool[20:]          # pids of processes forked during the sweep / of the initial tree: disjoint
         t = gen_tree(rng, pids, rng.choice([1, 2, 3, 4]), 0.0)
         n0 = len(all_pids(t))
         sched = sorted((rng.randint(0, 2 * n0 + 2), rng.randint(0, 10 ** 6)) for _ in range(rng.choice([1, 2, 4, 8])))
         for path in ("posix", "psutil"):
-            kills, joined, err, osx = run_real(U, t, path, schedule=sched, fresh=pids[:20], want_os=True)
+            kills, joined, err, osx = run_real(U, t, path, schedule=sched, fresh=fresh_pool, want_os=True)
             ht = osx.as_tree()
             vis = prune(ht)
             spec = postorder(vis)
